@@ -157,6 +157,33 @@ def gen_array_case(rng, big=False):
     return {"kind": "fuzzy", "rel": rel, "abs": abs_, "a": A, "b": B}, tags
 
 
+def gen_f32_case(rng):
+    """float32 arrays with Python-float tolerances (numpy: 'weak' scalars, arithmetic stays in float32)"""
+    import numpy as np
+    n = rng.choice([1, 2, 5])
+    e = rng.choice([-140, -126, -60, -10, 0, 1, 20, 90, 120])
+    def r32():
+        m = 1.0 + rng.getrandbits(23) / 2.0 ** 23
+        x = math.ldexp(m, max(-149, min(126, e + rng.randint(-2, 2))))
+        return float(np.float32(-x if rng.random() < 0.5 else x))
+    a = [r32() for _ in range(n)]
+    b = list(a)
+    rel = rng.choice([0.0, 2.0 ** -23, 1e-6, 1e-3, 0.1, 2.0 ** -10])
+    abs_ = rng.choice([0.0, 1e-45, 1e-38, 1e-30, 1e-6, 1.0])
+    i = rng.randrange(n)
+    t = max(float(np.float32(np.float32(abs(a[i])) * np.float32(rel))), float(np.float32(abs_)))
+    with np.errstate(all="ignore"):
+        bb = np.float32(np.float32(a[i]) + np.float32(t if rng.random() < 0.5 else -t))
+        k = rng.choice([0, 0, 1, 2])
+        for _ in range(k):
+            bb = np.nextafter(bb, np.float32(np.inf) if rng.random() < 0.5 else np.float32(-np.inf))
+    if np.isfinite(bb):
+        b[i] = float(bb)
+    relt = ["num", rel] if rng.random() < 0.85 else ["dflt"]
+    return {"kind": "fuzzy", "rel": relt, "abs": ["num", abs_],
+            "a": {"dt": "f32", "shape": [n], "v": a}, "b": {"dt": "f32", "shape": [n], "v": b}}, ["f32"]
+
+
 def is_nontrivial(case) -> bool:
     return case["a"]["v"] != case["b"]["v"] or case["a"]["shape"] != case["b"]["shape"]
 
@@ -166,6 +193,13 @@ def evaluate(ctx, cases, tagsl):
     replies = ctx.lean(lines) if ctx.driver_ok else [None] * len(cases)
     for c, tags, rep in zip(cases, tagsl, replies):
         impl = predio.run_impl(c["kind"], c["rel"], c["abs"], c["a"], c["b"])
+        if c["a"]["dt"] == "f32":
+            # float32: correspondence with the model only (the theorems are stated for float64)
+            ctx.case((c["rel"], c["abs"], c["a"], c["b"]), nontrivial=is_nontrivial(c), tags=list(tags) + ["verdict-" + impl],
+                     sample=None)
+            if rep is not None and rep.get("mhyp") == "1" and rep["model"] != impl:
+                ctx.mismatch(c, impl, rep["model"], what="float32: impl vs model")
+            continue
         orc = predio.oracle_fuzzy_f64(c["rel"], c["abs"], c["a"], c["b"])
         exact = predio.oracle_fuzzy_f64(c["rel"], c["abs"], c["a"], c["b"], formula=predio.exact_formula)
         tags = list(tags) + ["verdict-" + impl]
@@ -222,6 +256,9 @@ def run(ctx):
     for i in range(n_array):
         c, t = gen_array_case(rng, big=(i % 50 == 0))
         cases.append(c); tagsl.append(["array"] + t)
+    for _ in range(ctx.scale(1200, 60000)):
+        c, t = gen_f32_case(rng)
+        cases.append(c); tagsl.append(t)
     CH = 5000
     for i in range(0, len(cases), CH):
         evaluate(ctx, cases[i:i + CH], tagsl[i:i + CH])
